@@ -279,3 +279,8 @@ def check(ctx):
     # closed (by the closed-pipe path of read/write, by reproc_close) must therefore hold the marker, whatever close() returned
     from . import c05
     c05.check_closer(ctx, prog)
+    # ... and a stream field is invalidated only when the stream really is closed: by the closed-pipe path of read / write (not by an
+    # interrupted or would-block call: C02.S2n), by reproc_close and destroy - never by wait, stop, terminate, kill or poll (C02.S6)
+    from . import c02
+    c02.api_rules(ctx, prog)
+    c02.who_closes_streams(ctx, prog)
